@@ -13,6 +13,7 @@ import (
 	"os/exec"
 	"reflect"
 	"strings"
+	"sync"
 	"testing"
 	"time"
 
@@ -181,16 +182,37 @@ type helperT struct {
 	wrap   func([]byte) []byte // embeds the mutated document in the body
 	inner  func(h *hostPrep) []byte
 	call   func(ctx context.Context, e *henv) (any, error)
+	// helpers that work on a long-lived instance (relying party, key set, resource
+	// server, token source) give the two phases separately; call is then derived
+	// (setup, then use). Part hostile-timing lets two callers share one instance.
+	setup func(ctx context.Context, e *henv) (any, error)
+	use   func(ctx context.Context, e *henv, inst any) (any, error)
 }
 
-func viaRP(f func(ctx context.Context, r rp.RelyingParty) (any, error)) func(ctx context.Context, e *henv) (any, error) {
-	return func(ctx context.Context, e *henv) (any, error) {
-		r, err := e.newRP(ctx)
-		if err != nil {
-			return nil, fmt.Errorf("SETUP: %w", err)
+// finishHelpers derives call for the helpers that are given as setup + use.
+func finishHelpers(hs []helperT) []helperT {
+	for i := range hs {
+		hp := &hs[i]
+		if hp.call != nil || hp.setup == nil || hp.use == nil {
+			continue
 		}
-		return f(ctx, r)
+		setup, use := hp.setup, hp.use
+		hp.call = func(ctx context.Context, e *henv) (any, error) {
+			inst, err := setup(ctx, e)
+			if err != nil {
+				return nil, fmt.Errorf("SETUP: %w", err)
+			}
+			return use(ctx, e, inst)
+		}
 	}
+	return hs
+}
+
+func setupRP(ctx context.Context, e *henv) (any, error) { return e.newRP(ctx) }
+
+// onRP adapts a function of the relying party to the use phase.
+func onRP(f func(ctx context.Context, r rp.RelyingParty) (any, error)) func(ctx context.Context, e *henv, inst any) (any, error) {
+	return func(ctx context.Context, e *henv, inst any) (any, error) { return f(ctx, inst.(rp.RelyingParty)) }
 }
 
 var pemES = keys.Get("p256b").PEM
@@ -211,7 +233,7 @@ type jwksDoc struct {
 	Keys []json.RawMessage `json:"keys"`
 }
 
-var helpers = []helperT{
+var helpers = finishHelpers([]helperT{
 	{name: "client.Discover", target: "discovery", typ: &oidc.DiscoveryConfiguration{}, call: func(ctx context.Context, e *henv) (any, error) {
 		return client.Discover(ctx, rig.Issuer, e.hc)
 	}},
@@ -230,75 +252,89 @@ var helpers = []helperT{
 	{name: "profile.NewJWTProfileTokenSource", target: "discovery", typ: &oidc.DiscoveryConfiguration{}, call: func(ctx context.Context, e *henv) (any, error) {
 		return profile.NewJWTProfileTokenSource(ctx, rig.Issuer, "svc", "sk1", pemES, []string{"openid"}, profile.WithHTTPClient(e.hc))
 	}},
-	{name: "rp.CodeExchange", target: "token", typ: &oidc.AccessTokenResponse{}, call: viaRP(func(ctx context.Context, r rp.RelyingParty) (any, error) {
+	{name: "rp.CodeExchange", target: "token", typ: &oidc.AccessTokenResponse{}, setup: setupRP, use: onRP(func(ctx context.Context, r rp.RelyingParty) (any, error) {
 		return rp.CodeExchange[*oidc.IDTokenClaims](ctx, "code-1", r)
 	})},
-	{name: "rp.CodeExchange/jwks", target: "jwks", typ: &jwksDoc{}, call: viaRP(func(ctx context.Context, r rp.RelyingParty) (any, error) {
+	{name: "rp.CodeExchange/jwks", target: "jwks", typ: &jwksDoc{}, setup: setupRP, use: onRP(func(ctx context.Context, r rp.RelyingParty) (any, error) {
 		return rp.CodeExchange[*oidc.IDTokenClaims](ctx, "code-1", r)
 	})},
-	{name: "rp.RefreshTokens", target: "token", typ: &oidc.AccessTokenResponse{}, call: viaRP(func(ctx context.Context, r rp.RelyingParty) (any, error) {
+	{name: "rp.RefreshTokens", target: "token", typ: &oidc.AccessTokenResponse{}, setup: setupRP, use: onRP(func(ctx context.Context, r rp.RelyingParty) (any, error) {
 		return rp.RefreshTokens[*oidc.IDTokenClaims](ctx, r, "rt-1", "", "")
 	})},
-	{name: "rp.Userinfo", target: "userinfo", typ: &oidc.UserInfo{}, call: viaRP(func(ctx context.Context, r rp.RelyingParty) (any, error) {
+	{name: "rp.Userinfo", target: "userinfo", typ: &oidc.UserInfo{}, setup: setupRP, use: onRP(func(ctx context.Context, r rp.RelyingParty) (any, error) {
 		return rp.Userinfo[*oidc.UserInfo](ctx, "at-1", "Bearer", "u1", r)
 	})},
-	{name: "rp.ClientCredentials", target: "token", typ: &oidc.AccessTokenResponse{}, call: viaRP(func(ctx context.Context, r rp.RelyingParty) (any, error) {
+	{name: "rp.ClientCredentials", target: "token", typ: &oidc.AccessTokenResponse{}, setup: setupRP, use: onRP(func(ctx context.Context, r rp.RelyingParty) (any, error) {
 		return rp.ClientCredentials(ctx, r, nil)
 	})},
-	{name: "rp.DeviceAuthorization", target: "device_authorization", typ: &oidc.DeviceAuthorizationResponse{}, call: viaRP(func(ctx context.Context, r rp.RelyingParty) (any, error) {
+	{name: "rp.DeviceAuthorization", target: "device_authorization", typ: &oidc.DeviceAuthorizationResponse{}, setup: setupRP, use: onRP(func(ctx context.Context, r rp.RelyingParty) (any, error) {
 		return rp.DeviceAuthorization(ctx, []string{"openid"}, r, nil)
 	})},
-	{name: "rp.DeviceAccessToken", target: "token", typ: &oidc.AccessTokenResponse{}, call: viaRP(func(ctx context.Context, r rp.RelyingParty) (any, error) {
+	{name: "rp.DeviceAccessToken", target: "token", typ: &oidc.AccessTokenResponse{}, setup: setupRP, use: onRP(func(ctx context.Context, r rp.RelyingParty) (any, error) {
 		return rp.DeviceAccessToken(ctx, "dc-1", time.Second, r)
 	})},
-	{name: "rp.EndSession", target: "end_session", call: viaRP(func(ctx context.Context, r rp.RelyingParty) (any, error) {
+	{name: "rp.EndSession", target: "end_session", setup: setupRP, use: onRP(func(ctx context.Context, r rp.RelyingParty) (any, error) {
 		u, err := rp.EndSession(ctx, r, "idt", "https://rp.example/out", "s1")
 		if u == nil {
 			return nil, err
 		}
 		return u, err
 	})},
-	{name: "rp.RevokeToken", target: "revoke", call: viaRP(func(ctx context.Context, r rp.RelyingParty) (any, error) {
+	{name: "rp.RevokeToken", target: "revoke", setup: setupRP, use: onRP(func(ctx context.Context, r rp.RelyingParty) (any, error) {
 		return "done", rp.RevokeToken(ctx, r, "at-1", "access_token")
 	})},
-	{name: "rs.Introspect", target: "introspect", typ: &oidc.IntrospectionResponse{}, call: func(ctx context.Context, e *henv) (any, error) {
-		s, err := rs.NewResourceServerClientCredentials(ctx, rig.Issuer, "web", "secret-web", rs.WithClient(e.hc))
-		if err != nil {
-			return nil, fmt.Errorf("SETUP: %w", err)
-		}
-		return rs.Introspect[*oidc.IntrospectionResponse](ctx, s, "at-1")
-	}},
-	{name: "tokenexchange.ExchangeToken", target: "token", typ: &oidc.TokenExchangeResponse{}, call: func(ctx context.Context, e *henv) (any, error) {
-		te, err := tokenexchange.NewTokenExchangerClientCredentials(ctx, rig.Issuer, "web", "secret-web", tokenexchange.WithHTTPClient(e.hc))
-		if err != nil {
-			return nil, fmt.Errorf("SETUP: %w", err)
-		}
-		return tokenexchange.ExchangeToken(ctx, te, "at-1", oidc.AccessTokenType, "", "", nil, nil, []string{"openid"}, oidc.AccessTokenType)
-	}},
+	{name: "rs.Introspect", target: "introspect", typ: &oidc.IntrospectionResponse{},
+		setup: func(ctx context.Context, e *henv) (any, error) {
+			return rs.NewResourceServerClientCredentials(ctx, rig.Issuer, "web", "secret-web", rs.WithClient(e.hc))
+		},
+		use: func(ctx context.Context, e *henv, inst any) (any, error) {
+			return rs.Introspect[*oidc.IntrospectionResponse](ctx, inst.(rs.ResourceServer), "at-1")
+		}},
+	{name: "tokenexchange.ExchangeToken", target: "token", typ: &oidc.TokenExchangeResponse{},
+		setup: func(ctx context.Context, e *henv) (any, error) {
+			return tokenexchange.NewTokenExchangerClientCredentials(ctx, rig.Issuer, "web", "secret-web", tokenexchange.WithHTTPClient(e.hc))
+		},
+		use: func(ctx context.Context, e *henv, inst any) (any, error) {
+			return tokenexchange.ExchangeToken(ctx, inst.(tokenexchange.TokenExchanger), "at-1", oidc.AccessTokenType, "", "", nil, nil, []string{"openid"}, oidc.AccessTokenType)
+		}},
 	{name: "client.JWTProfileExchange", target: "token", typ: &oidc.AccessTokenResponse{}, call: func(ctx context.Context, e *henv) (any, error) {
 		return client.JWTProfileExchange(ctx, oidc.NewJWTProfileGrantRequest("assertion", "openid"), tokenCaller{e.hc})
 	}},
-	{name: "profile.TokenCtx", target: "token", typ: &oidc.AccessTokenResponse{}, call: func(ctx context.Context, e *henv) (any, error) {
-		ts, err := profile.NewJWTProfileTokenSource(ctx, rig.Issuer, "svc", "sk1", pemES, []string{"openid"}, profile.WithHTTPClient(e.hc))
-		if err != nil {
-			return nil, fmt.Errorf("SETUP: %w", err)
-		}
-		return ts.TokenCtx(ctx)
+	{name: "profile.TokenCtx", target: "token", typ: &oidc.AccessTokenResponse{},
+		setup: func(ctx context.Context, e *henv) (any, error) {
+			return profile.NewJWTProfileTokenSource(ctx, rig.Issuer, "svc", "sk1", pemES, []string{"openid"}, profile.WithHTTPClient(e.hc))
+		},
+		use: func(ctx context.Context, e *henv, inst any) (any, error) {
+			return inst.(profile.TokenSource).TokenCtx(ctx)
+		}},
+	{name: "RemoteKeySet.VerifySignature", target: "jwks", typ: &jwksDoc{}, setup: setupKeySet, use: useKeySet},
+	{name: "RemoteKeySet.VerifySignature/jwk", target: "jwks", typ: &struct{}{}, wrap: wrapJWK, inner: firstJWK, setup: setupKeySet, use: useKeySet},
+	// the verifier entry points of a relying party: the key set behind them downloads
+	// the provider's keys in a goroutine of its own
+	{name: "rp.VerifyIDToken", target: "jwks", typ: &jwksDoc{}, setup: setupRP, use: func(ctx context.Context, e *henv, inst any) (any, error) {
+		return rp.VerifyIDToken[*oidc.IDTokenClaims](ctx, e.prep.idToken, inst.(rp.RelyingParty).IDTokenVerifier())
 	}},
-	{name: "RemoteKeySet.VerifySignature", target: "jwks", typ: &jwksDoc{}, call: func(ctx context.Context, e *henv) (any, error) {
-		jws, err := jose.ParseSigned(e.prep.idToken, []jose.SignatureAlgorithm{jose.ES256})
-		if err != nil {
-			return nil, fmt.Errorf("SETUP: %w", err)
-		}
-		return rp.NewRemoteKeySet(e.hc, rig.Issuer+"/keys").VerifySignature(ctx, jws)
+	{name: "rp.VerifyTokens", target: "jwks", typ: &jwksDoc{}, setup: setupRP, use: func(ctx context.Context, e *henv, inst any) (any, error) {
+		return rp.VerifyTokens[*oidc.IDTokenClaims](ctx, e.prep.at, e.prep.idToken, inst.(rp.RelyingParty).IDTokenVerifier())
 	}},
-	{name: "RemoteKeySet.VerifySignature/jwk", target: "jwks", typ: &struct{}{}, wrap: wrapJWK, inner: firstJWK, call: func(ctx context.Context, e *henv) (any, error) {
-		jws, err := jose.ParseSigned(e.prep.idToken, []jose.SignatureAlgorithm{jose.ES256})
-		if err != nil {
-			return nil, fmt.Errorf("SETUP: %w", err)
-		}
-		return rp.NewRemoteKeySet(e.hc, rig.Issuer+"/keys").VerifySignature(ctx, jws)
-	}},
+})
+
+type keySetInst struct {
+	ks  oidc.KeySet
+	jws *jose.JSONWebSignature
+}
+
+func setupKeySet(ctx context.Context, e *henv) (any, error) {
+	jws, err := jose.ParseSigned(e.prep.idToken, []jose.SignatureAlgorithm{jose.ES256})
+	if err != nil {
+		return nil, err
+	}
+	return &keySetInst{rp.NewRemoteKeySet(e.hc, rig.Issuer+"/keys"), jws}, nil
+}
+
+func useKeySet(ctx context.Context, e *henv, inst any) (any, error) {
+	k := inst.(*keySetInst)
+	return k.ks.VerifySignature(ctx, k.jws)
 }
 
 var statusAlts = []string{"200", "201", "204", "302-loop", "400", "401", "500"}
@@ -566,6 +602,11 @@ type childReq struct {
 func startChild() *childProc {
 	cmd := exec.Command(os.Args[0], "-test.run", "^TestHostileChild$", "-test.timeout", "0", "-test.count", "1")
 	cmd.Env = append(os.Environ(), "C09_CHILD=1", "GOTRACEBACK=single")
+	childEnvMu.Lock()
+	for k, v := range childEnv {
+		cmd.Env = append(cmd.Env, k+"="+v)
+	}
+	childEnvMu.Unlock()
 	in, err := cmd.StdinPipe()
 	if err != nil {
 		panic(err)
@@ -590,9 +631,21 @@ func (c *childProc) kill() {
 
 const childPrefix = "C09RES "
 
+// what a parent hands down to its children besides the environment
+var (
+	childEnvMu sync.Mutex
+	childEnv   = map[string]string{}
+)
+
+const childCaseTimeout = 5 * time.Minute
+
 // do sends one case; crash is the child's stderr when it died.
 func (c *childProc) do(part string, desc map[string]string) (res engine.Result, crash string, err error) {
 	b, _ := json.Marshal(childReq{part, desc})
+	// guard of the harness, not an oracle: a child that neither answers nor dies is killed
+	// (its executions take milliseconds of CPU; all waiting inside them is fake time)
+	guard := time.AfterFunc(childCaseTimeout, func() { c.cmd.Process.Kill() })
+	defer guard.Stop()
 	if _, err = c.in.Write(append(b, '\n')); err == nil {
 		for {
 			var line string
@@ -635,11 +688,16 @@ func TestHostileChild(t *testing.T) {
 			t.Fatal(err)
 		}
 		if workers[rq.Part] == nil {
-			pt := passT{rq.Part, shapeNames(len(shapesAll)), 1, false}
-			if strings.HasSuffix(rq.Part, "-pairs") {
-				pt = passT{rq.Part, shapeNames(19), 2, true}
+			var e1 engine.E1
+			if rq.Part == timingPart {
+				e1, _ = buildTiming(t, false) // the space is the same in both tiers
+			} else {
+				pt := passT{rq.Part, shapeNames(len(shapesAll)), 1, false}
+				if strings.HasSuffix(rq.Part, "-pairs") {
+					pt = passT{rq.Part, shapeNames(19), 2, true}
+				}
+				e1, _ = buildHostile(t, pt)
 			}
-			e1, _ := buildHostile(t, pt)
 			workers[rq.Part], spaces[rq.Part] = e1.NewWorker(0), e1.Space
 		}
 		v, err := spaces[rq.Part].FromDescription(rq.Case)
